@@ -62,6 +62,7 @@ pub struct Gen<'a> {
     budget: i32,
     oneline: bool,
     name_ctr: usize,
+    scale: usize,
 }
 
 const VAR_NAMES: &[&str] = &["a", "b", "c", "x", "y", "z", "acc", "v", "w", "tmp", "res", "n"];
@@ -333,7 +334,7 @@ impl<'a> Gen<'a> {
                     self.params.iter().filter(|(_, t)| t == ty).map(|(n, _)| n.clone()).collect();
                 let name = if !existing.is_empty() && self.rng.coin() {
                     self.rng.pick(&existing).clone()
-                } else if self.params.len() < 4 {
+                } else if self.params.len() < 4 * self.scale {
                     let n = format!("P{}", self.params.len());
                     self.params.push((n.clone(), ty.clone()));
                     n
@@ -689,6 +690,8 @@ fn json_entry(name: &str, lit: &str, ty: &Ty) -> (String, serde_json::Value) {
 
 pub fn program(rng: &mut Prng, id: &str) -> Case {
     let oneline = rng.below(5) == 0;
+    // one program in ten is large: tables of 10..20 functions, aliases and parameters, ~100 statements
+    let scale = if rng.below(10) == 0 { 4 } else { 1 };
     let mut g = Gen {
         rng,
         aliases: Vec::new(),
@@ -702,10 +705,11 @@ pub fn program(rng: &mut Prng, id: &str) -> Case {
         budget: 0,
         oneline,
         name_ctr: 0,
+        scale,
     };
     let mut items: Vec<String> = Vec::new();
     // aliases
-    let n_alias = g.rng.below(4);
+    let n_alias = g.rng.below(4 * scale);
     for i in 0..n_alias {
         let t = g.any_ty(0);
         let ts = g.ty_str(&t);
@@ -714,7 +718,7 @@ pub fn program(rng: &mut Prng, id: &str) -> Case {
         g.aliases.push((name, t));
     }
     // helpers
-    let n_funcs = g.rng.below(5);
+    let n_funcs = g.rng.below(5 * scale);
     for i in 0..n_funcs {
         let kind = g.rng.below(6);
         let name = format!("{}{}", g.rng.pick(&["helper", "f", "calc", "step"]), i);
@@ -779,7 +783,7 @@ pub fn program(rng: &mut Prng, id: &str) -> Case {
     }
     // main
     g.in_main = true;
-    let stmts = 3 + g.rng.below(23);
+    let stmts = 3 * scale + g.rng.below(23 * scale);
     let body = g.fn_body(&Ty::unit(), stmts);
     items.push(format!("fn main() {body}"));
     let joiner = if g.oneline { " " } else { "\n\n" };
